@@ -215,7 +215,8 @@ def replay_ref(rec, verbose=True):
             try:
                 for k, v in g.items():
                     vm.SetGlobal(k, copy.deepcopy(v))
-                r = vm.Invoke(entry, **copy.deepcopy(a))
+                with pool.time_limit(INVOKE_LIMIT):
+                    r = vm.Invoke(entry, **copy.deepcopy(a))
             except BaseException as e:
                 r = f"<<{type(e).__name__}>>"
             if entry == rec["entry"] and a == args and g == globs and (isinstance(r, str) or not values_equal(r, rec["expected"]["return"])):
